@@ -153,19 +153,22 @@ Fixpoint cont (ps : list (string * str)) : str :=
   end.
 Definition opt_list {A} (o : option A) : list A := match o with Some x => [x] | None => [] end.
 Definition qlit (b : str) : str := dq :: b ++ [dq].
-Definition pieces (omin omax omsg : option str) : list (string * str) :=
-  map (fun a => ("min"%string, a)) (opt_list omin) ++ map (fun a => ("max"%string, a)) (opt_list omax) ++
-  map (fun b => ("message"%string, qlit b)) (opt_list omsg).
-Definition canon_args (omin omax omsg : option str) : list arg :=
-  map (fun a => AMin (Num false a)) (opt_list omin) ++ map (fun a => AMax (Num false a)) (opt_list omax) ++
-  map (fun b => AMsg (qlit b) b) (opt_list omsg).
+(* the six orders of three (optional) arguments *)
+Definition perm3 {A} (o : nat) (x y z : list A) : list A :=
+  match o with 0 => x ++ y ++ z | 1 => x ++ z ++ y | 2 => y ++ x ++ z | 3 => y ++ z ++ x | 4 => z ++ x ++ y | _ => z ++ y ++ x end.
+Definition pieces (o : nat) (omin omax omsg : option str) : list (string * str) :=
+  perm3 o (map (fun a => ("min"%string, a)) (opt_list omin)) (map (fun a => ("max"%string, a)) (opt_list omax))
+          (map (fun b => ("message"%string, qlit b)) (opt_list omsg)).
+Definition canon_args (o : nat) (omin omax omsg : option str) : list arg :=
+  perm3 o (map (fun a => AMin (Num false a)) (opt_list omin)) (map (fun a => AMax (Num false a)) (opt_list omax))
+          (map (fun b => AMsg (qlit b) b) (opt_list omsg)).
 Definition canon_item (isrange : bool) (args : list arg) : item := if isrange then IRange args else ILength args.
 Definition kwof (isrange : bool) : string := if isrange then "range"%string else "length"%string.
 
-Lemma tokens_canon : forall r omin omax omsg,
-  items_tokens [canon_item r (canon_args omin omax omsg)] = L (kwof r) ++ L " (" ++ cont (pieces omin omax omsg) ++ L ")".
-Proof. intros [|] [a|] [b|] [m|]; unfold items_tokens, tok_string, qlit;
-  cbn [canon_item canon_args pieces opt_list map app sep_toks item_toks args_group arg_toks num_toks tok_go tok_one
+Lemma tokens_canon : forall r o omin omax omsg,
+  items_tokens [canon_item r (canon_args o omin omax omsg)] = L (kwof r) ++ L " (" ++ cont (pieces o omin omax omsg) ++ L ")".
+Proof. intros [|] [|[|[|[|[|o]]]]] [a|] [b|] [m|]; unfold items_tokens, tok_string, qlit;
+  cbn [canon_item canon_args pieces perm3 opt_list map app sep_toks item_toks args_group arg_toks num_toks tok_go tok_one
        joint_of orb kwof cont L list_ascii_of_string comma];
   repeat (rewrite <- ?app_assoc; cbn [app]); rewrite ?app_nil_r; reflexivity. Qed.
 
@@ -186,13 +189,13 @@ Proof. unfold plain_body. intros H. apply andb_true_iff in H as [Hc Hk]. split; 
   unfold contains in Hk. rewrite find_sub_fs in Hk. destruct (fs (L kw) b); [discriminate|reflexivity]. Qed.
 
 Ltac side := first [ reflexivity | assumption | (apply fs_none_num; [reflexivity | assumption]) ].
-Ltac chew := cbn [fs starts Ascii.eqb Bool.eqb andb pre app L list_ascii_of_string cont pieces opt_list map skipn List.length qlit kwof negb].
+Ltac chew := cbn [fs starts Ascii.eqb Bool.eqb andb pre app L list_ascii_of_string cont pieces perm3 opt_list map skipn List.length qlit kwof negb].
 Ltac go := repeat (chew; match goal with
    | |- context [fs ?p (?a ++ [])] => rewrite (app_nil_r a); rewrite (fs_is_none p a) by side
    | |- context [fs ?p (?a ++ ?q :: ?y)] => rewrite (fs_app_q a p q y) by side
    | |- context [fs ?p ?a] => is_var a; rewrite (fs_is_none p a) by side
    end); chew.
-Ltac norm := cbn [cont pieces opt_list map app qlit kwof negb]; rewrite ?app_nil_r; repeat (rewrite <- ?app_assoc; cbn [app L list_ascii_of_string]).
+Ltac norm := cbn [cont pieces perm3 opt_list map app qlit kwof negb]; rewrite ?app_nil_r; repeat (rewrite <- ?app_assoc; cbn [app L list_ascii_of_string]).
 (* brings the hypotheses about the optional components into the forms the side conditions use *)
 Ltac prep :=
   repeat match goal with
@@ -210,11 +213,11 @@ Ltac kwfacts Hk :=
   pose proof (Hk "max"%string ltac:(cbn; tauto)) as Hk_max;
   pose proof (Hk "message"%string ltac:(cbn; tauto)) as Hk_message.
 
-Lemma no_kw_tokens : forall (p : string) r omin omax omsg, okn omin -> okn omax -> okm omsg ->
+Lemma no_kw_tokens : forall (p : string) r o omin omax omsg, okn omin -> okn omax -> okm omsg ->
   In p ["email"; "url"; kwof (negb r)]%string ->
-  fs (L p) (L (kwof r) ++ L " (" ++ cont (pieces omin omax omsg) ++ L ")") = None.
-Proof. intros p r omin omax omsg Hmin Hmax Hmsg Hp.
-  destruct omsg as [m|]; prep; [match goal with H : forall kw, In kw kws -> _ |- _ => kwfacts H end|];
+  fs (L p) (L (kwof r) ++ L " (" ++ cont (pieces o omin omax omsg) ++ L ")") = None.
+Proof. intros p r o omin omax omsg Hmin Hmax Hmsg Hp.
+  destruct o as [|[|[|[|[|o]]]]]; destruct omsg as [m|]; prep; try (match goal with H : forall kw, In kw kws -> _ |- _ => kwfacts H end);
   destruct r, omin as [a|], omax as [b|]; prep;
   cbn [In kwof negb] in Hp; (destruct Hp as [<-|[<-|[<-|[]]]]); norm; go; reflexivity. Qed.
 
@@ -224,10 +227,10 @@ Lemma plain_lacks : forall b, forallb plain_char b = true ->
 Proof. intros b H. unfold lacks. repeat split; apply forallb_forall; intros c Hc; rewrite forallb_forall in H;
   specialize (H c Hc); unfold plain_char in H; apply andb_true_iff in H as [H12 H3]; apply andb_true_iff in H12 as [H1 H2]; assumption. Qed.
 
-Lemma lacks_paren_cont : forall omin omax omsg, okn omin -> okn omax -> okm omsg ->
-  lacks ")" (cont (pieces omin omax omsg)) = true.
-Proof. intros omin omax omsg Hmin Hmax Hmsg.
-  destruct omsg as [m|]; prep; [match goal with H : forallb plain_char _ = true |- _ => apply plain_lacks in H as [Hm _]; unfold lacks in Hm end|];
+Lemma lacks_paren_cont : forall o omin omax omsg, okn omin -> okn omax -> okm omsg ->
+  lacks ")" (cont (pieces o omin omax omsg)) = true.
+Proof. intros o omin omax omsg Hmin Hmax Hmsg.
+  destruct o as [|[|[|[|[|o]]]]]; destruct omsg as [m|]; prep; try (match goal with H : forallb plain_char _ = true |- _ => apply plain_lacks in H as [Hm _]; unfold lacks in Hm end);
   destruct omin as [a|], omax as [b|]; prep;
   repeat match goal with H : forallb is_num_char ?x = true |- _ =>
     lazymatch goal with H' : forallb (fun b => negb (Ascii.eqb b ")")) x = true |- _ => fail | _ => idtac end;
@@ -278,10 +281,10 @@ Ltac bound_tac :=
         | eapply bound_text_last; [go; reflexivity | reflexivity | assumption]
         | eapply bound_text_mid; [go; reflexivity | reflexivity | assumption] ].
 
-Lemma bounds_canon : forall omin omax omsg, okn omin -> okn omax -> okm omsg ->
-  bound_text "min" (cont (pieces omin omax omsg)) = omin /\ bound_text "max" (cont (pieces omin omax omsg)) = omax.
-Proof. intros omin omax omsg Hmin Hmax Hmsg.
-  destruct omsg as [m|]; prep; [match goal with H : forall kw, In kw kws -> _ |- _ => kwfacts H end|];
+Lemma bounds_canon : forall o omin omax omsg, okn omin -> okn omax -> okm omsg ->
+  bound_text "min" (cont (pieces o omin omax omsg)) = omin /\ bound_text "max" (cont (pieces o omin omax omsg)) = omax.
+Proof. intros o omin omax omsg Hmin Hmax Hmsg.
+  destruct o as [|[|[|[|[|o]]]]]; destruct omsg as [m|]; prep; try (match goal with H : forall kw, In kw kws -> _ |- _ => kwfacts H end);
   destruct omin as [a|], omax as [b|]; prep; split; bound_tac. Qed.
 
 (* ------------------------------------------------------------------ parse_message on a plain literal *)
@@ -307,44 +310,44 @@ Proof. induction x as [|a x IH]; intros q r; cbn [app List.length nth_error]; au
 
 Lemma parse_message_none : forall T, fs (L "message") T = None -> parse_message T = Ok None.
 Proof. intros T H. unfold parse_message. rewrite find_sub_fs, H. reflexivity. Qed.
-Lemma parse_message_at : forall T P m, fs (L "message") T = Some (P, L " = " ++ dq :: m ++ [dq]) ->
+Lemma parse_message_at : forall T P m R, fs (L "message") T = Some (P, L " = " ++ dq :: m ++ dq :: R) ->
   forallb plain_char m = true -> parse_message T = Ok (Some m).
-Proof. intros T P m H Hm. unfold parse_message. rewrite find_sub_fs, H.
-  change (L "message" ++ L " = " ++ dq :: m ++ [dq]) with (L "message " ++ "=" :: (" " :: dq :: m ++ [dq])).
+Proof. intros T P m R H Hm. unfold parse_message. rewrite find_sub_fs, H.
+  change (L "message" ++ L " = " ++ dq :: m ++ dq :: R) with (L "message " ++ "=" :: (" " :: dq :: m ++ dq :: R)).
   rewrite after_char_app by reflexivity.
-  change (wtrim_l (" " :: dq :: m ++ [dq])) with (dq :: m ++ [dq]).
+  change (wtrim_l (" " :: dq :: m ++ dq :: R)) with (dq :: m ++ dq :: R).
   change (Ascii.eqb dq dq || Ascii.eqb dq sq) with true. cbv iota.
-  change (m ++ [dq]) with (m ++ dq :: []). rewrite scan_plain by exact Hm. cbn [plus].
+  rewrite scan_plain by exact Hm. cbn [plus].
   unfold slice_to, boundary. rewrite app_length. cbn [List.length].
-  replace (Nat.eqb (List.length m) (List.length m + 1)) with false by (symmetry; apply Nat.eqb_neq; lia).
+  replace (Nat.eqb (List.length m) (List.length m + S (List.length R))) with false by (symmetry; apply Nat.eqb_neq; lia).
   rewrite nth_error_app_len. change (negb (is_cont dq)) with true. cbv iota. rewrite firstn_app_len. cbn [obind].
   destruct (plain_lacks m Hm) as [_ [_ Hb]]. rewrite unescape_plain by exact Hb. reflexivity. Qed.
 
-Lemma message_canon : forall omin omax omsg, okn omin -> okn omax -> okm omsg ->
-  parse_message (cont (pieces omin omax omsg)) = Ok omsg.
-Proof. intros omin omax omsg Hmin Hmax Hmsg.
-  destruct omsg as [m|]; prep; destruct omin as [a|], omax as [b|]; prep; norm;
+Lemma message_canon : forall o omin omax omsg, okn omin -> okn omax -> okm omsg ->
+  parse_message (cont (pieces o omin omax omsg)) = Ok omsg.
+Proof. intros o omin omax omsg Hmin Hmax Hmsg.
+  destruct o as [|[|[|[|[|o]]]]]; destruct omsg as [m|]; prep; destruct omin as [a|], omax as [b|]; prep; norm;
   first [ apply parse_message_none; go; reflexivity
         | eapply parse_message_at; [go; reflexivity | assumption] ]. Qed.
 
 (* ------------------------------------------------------------------ the scanning half on canonical validators *)
 Definition onum (numf : str -> option str) (o : option str) : option str := match o with Some a => numf a | None => None end.
 
-Theorem scan_exact_canon : forall dispf r omin omax omsg, okn omin -> okn omax -> okm omsg ->
-  parse_validator_attributes dispf [AValidate [canon_item r (canon_args omin omax omsg)]] =
+Theorem scan_exact_canon : forall dispf r o omin omax omsg, okn omin -> okn omax -> okm omsg ->
+  parse_validator_attributes dispf [AValidate [canon_item r (canon_args o omin omax omsg)]] =
   Ok (Some (let c := {| c_min := onum (if r then dispf else parse_u64) omin;
                         c_max := onum (if r then dispf else parse_u64) omax; c_msg := omsg |} in
             {| v_length := if r then None else Some c; v_range := if r then Some c else None;
                v_email := false; v_url := false |})).
-Proof. intros dispf r omin omax omsg Hmin Hmax Hmsg.
+Proof. intros dispf r o omin omax omsg Hmin Hmax Hmsg.
   unfold parse_validator_attributes. cbn [map attr_view va_fold]. rewrite tokens_canon.
-  pose proof (no_kw_tokens "email" r omin omax omsg Hmin Hmax Hmsg ltac:(cbn; tauto)) as He.
-  pose proof (no_kw_tokens "url" r omin omax omsg Hmin Hmax Hmsg ltac:(cbn; tauto)) as Hu.
-  pose proof (no_kw_tokens (kwof (negb r)) r omin omax omsg Hmin Hmax Hmsg ltac:(cbn; tauto)) as Ho.
-  pose proof (lacks_paren_cont omin omax omsg Hmin Hmax Hmsg) as Hp.
-  destruct (bounds_canon omin omax omsg Hmin Hmax Hmsg) as [Bmin Bmax].
-  pose proof (message_canon omin omax omsg Hmin Hmax Hmsg) as Bmsg.
-  set (C := cont (pieces omin omax omsg)) in *. set (T := L (kwof r) ++ L " (" ++ C ++ L ")") in *.
+  pose proof (no_kw_tokens "email" r o omin omax omsg Hmin Hmax Hmsg ltac:(cbn; tauto)) as He.
+  pose proof (no_kw_tokens "url" r o omin omax omsg Hmin Hmax Hmsg ltac:(cbn; tauto)) as Hu.
+  pose proof (no_kw_tokens (kwof (negb r)) r o omin omax omsg Hmin Hmax Hmsg ltac:(cbn; tauto)) as Ho.
+  pose proof (lacks_paren_cont o omin omax omsg Hmin Hmax Hmsg) as Hp.
+  destruct (bounds_canon o omin omax omsg Hmin Hmax Hmsg) as [Bmin Bmax].
+  pose proof (message_canon o omin omax omsg Hmin Hmax Hmsg) as Bmsg.
+  set (C := cont (pieces o omin omax omsg)) in *. set (T := L (kwof r) ++ L " (" ++ C ++ L ")") in *.
   assert (Hhit : forall numf, parse_constraint (kwof r) numf T =
             Ok (Some {| c_min := onum numf omin; c_max := onum numf omax; c_msg := omsg |})).
   { intros numf. unfold parse_constraint. unfold T at 1. rewrite contains_kw. unfold T. rewrite paren_content_ok by exact Hp.
@@ -415,37 +418,37 @@ Definition canon_cstr (dispf : str -> option str) (r : bool) (omin omax omsg : o
 Definition canon_va (dispf : str -> option str) (r : bool) (omin omax omsg : option str) : vattrs :=
   {| v_length := if r then None else Some (canon_cstr dispf r omin omax omsg);
      v_range := if r then Some (canon_cstr dispf r omin omax omsg) else None; v_email := false; v_url := false |}.
-Definition canon_field (t : ty) (r : bool) (omin omax omsg : option str) : field :=
-  {| f_ty := t; f_attrs := [AValidate [canon_item r (canon_args omin omax omsg)]] |}.
+Definition canon_field (t : ty) (r : bool) (o : nat) (omin omax omsg : option str) : field :=
+  {| f_ty := t; f_attrs := [AValidate [canon_item r (canon_args o omin omax omsg)]] |}.
 Definition opt_ty (k : nat) (t : ty) : ty := Nat.iter k TyOpt t.
 Lemma tstruct_opt_ty : forall k t, tstruct_of (opt_ty k t) = opts k (tstruct_of t).
 Proof. induction k as [|k IH]; intros t; [reflexivity|]. change (opt_ty (S k) t) with (TyOpt (opt_ty k t)).
   cbn [tstruct_of]. rewrite IH. reflexivity. Qed.
 
-Lemma field_chain_canon : forall dispf t r omin omax omsg, okn omin -> okn omax -> okm omsg ->
-  field_chain dispf (canon_field t r omin omax omsg) =
+Lemma field_chain_canon : forall dispf t r o omin omax omsg, okn omin -> okn omax -> okm omsg ->
+  field_chain dispf (canon_field t r o omin omax omsg) =
   Ok (Some (canon_va dispf r omin omax omsg), build_schema (tstruct_of t) (Some (canon_va dispf r omin omax omsg))).
-Proof. intros dispf t r omin omax omsg Hmin Hmax Hmsg. unfold field_chain, canon_field. cbn [f_attrs f_ty].
+Proof. intros dispf t r o omin omax omsg Hmin Hmax Hmsg. unfold field_chain, canon_field. cbn [f_attrs f_ty].
   rewrite scan_exact_canon by assumption. reflexivity. Qed.
 
 (* declared canonical length(..) / range(..) on a String / numeric / Vec<String> field under k Options:
    no panic, the parsed attributes are the declared ones, and the emitted chain reads back as exactly
    min / max (printed bound of the declared literal) with the declared message *)
-Theorem exact_canon : forall dispf k omin omax omsg, okn omin -> okn omax -> okm omsg ->
+Theorem exact_canon : forall dispf k o omin omax omsg, okn omin -> okn omax -> okm omsg ->
   (va_ok (canon_va dispf false omin omax omsg) = true ->
-   exists chain, field_chain dispf (canon_field (opt_ty k TyString) false omin omax omsg)
+   exists chain, field_chain dispf (canon_field (opt_ty k TyString) false o omin omax omsg)
                    = Ok (Some (canon_va dispf false omin omax omsg), chain) /\
      read_chain chain = Some (Sch (L "z.string") [] (cstr_meths (canon_cstr dispf false omin omax omsg) ++ repeat MOptional k))) /\
   (va_ok (canon_va dispf true omin omax omsg) = true ->
-   exists chain, field_chain dispf (canon_field (opt_ty k TyNum) true omin omax omsg)
+   exists chain, field_chain dispf (canon_field (opt_ty k TyNum) true o omin omax omsg)
                    = Ok (Some (canon_va dispf true omin omax omsg), chain) /\
      read_chain chain = Some (Sch (L "z.coerce.number") [] (cstr_meths (canon_cstr dispf true omin omax omsg) ++ repeat MOptional k))) /\
   (va_ok (canon_va dispf false omin omax omsg) = true ->
-   exists chain, field_chain dispf (canon_field (opt_ty k (TyVec TyString)) false omin omax omsg)
+   exists chain, field_chain dispf (canon_field (opt_ty k (TyVec TyString)) false o omin omax omsg)
                    = Ok (Some (canon_va dispf false omin omax omsg), chain) /\
      read_chain chain = Some (Sch (L "z.array") [Sch (L "z.string") [] []]
                                   (cstr_meths (canon_cstr dispf false omin omax omsg) ++ repeat MOptional k))).
-Proof. intros dispf k omin omax omsg Hmin Hmax Hmsg. split; [|split]; intros Hv; eexists; (split; [apply field_chain_canon; assumption|]);
+Proof. intros dispf k o omin omax omsg Hmin Hmax Hmsg. split; [|split]; intros Hv; eexists; (split; [apply field_chain_canon; assumption|]);
   rewrite tstruct_opt_ty; cbn [tstruct_of]; destruct (render_exact _ k Hv) as [Hs [Hn Ha]].
   - exact Hs.
   - exact Hn.
